@@ -216,8 +216,18 @@ def _dispose(pkg):
         disp = E.call(E.getattr(ob, 'subscribe'), [observer])
         E.cover('subscribed')
         E.prove('from_publisher:two_tasks_started', len(tasks) == 2 and sorted(c.func.name for t, c in tasks) == ['_aio_sub', '_trigger_next_request_n'])
-        # run the subscription task up to its wait, then dispose
         sub_task = [tc for tc in tasks if tc[1].func.name == '_aio_sub'][0]
+        if E.path.choice(2, 'disposed-before-the-tasks-ran') == 1:
+            # disposed in the same event-loop iteration as subscribed: asyncio never runs the body of a task that is
+            # cancelled before its first step.  Whatever was started synchronously has to be undone synchronously.
+            E.call(E.getattr(disp, 'dispose'), [])
+            E.cover('disposed-at-once')
+            subs = log.of(publisher, 'subscribe')
+            E.prove('dispose:both_tasks_cancelled', all(t.attrs['cancel_requested'] for t, c in tasks))
+            E.prove('dispose:a_stream_that_was_requested_is_cancelled[also when disposed before the adapter tasks ran]',
+                    len(log.of(subscription, 'cancel')) == len(subs) and len(subs) <= 1)
+            return
+        # run the subscription task up to its wait, then dispose
         done_before = E.path.choice(2, 'stream-already-done') == 1
         state = {'cancel': False}
 
